@@ -3,11 +3,24 @@
 // The SHAPE of the object is concrete (which attributes, byte lengths) so that file offsets are concrete; all VALUES, the crash
 // point / fault point / truncation length are symbolic.
 //   OP 0  round trip, format pin and cross-instance visibility (a second instance = another process sharing the directory)
-//   OP 1  crash at an arbitrary file operation of a rewrite (+ arbitrary prefix of the data being flushed), then recovery
-//   OP 2  one failing file operation at an arbitrary point of a rewrite
+//   OP 1  crash at the VIO_AT-th file operation of a rewrite (+ arbitrary prefix of the data being flushed): what is on the disk
+//   OP 2  the VIO_AT-th file operation of a rewrite fails
+//   OP 5  two instances, one concrete schedule (SCHED) of attribute writes, values symbolic
 //   OP 3  loader on a file cut at an arbitrary length (what a crash of a LARGER write leaves behind)
 #include "venv.h"
 #include "caps.h"
+#ifndef VIO_AT
+#define VIO_AT 0
+#endif
+#ifndef NOPS
+#define NOPS 24
+#endif
+#ifndef SCHED
+#define SCHED 0
+#endif
+#ifndef SCHED_LEN
+#define SCHED_LEN 3
+#endif
 #include "vio_model.h"
 #define MUTEX_MODEL_IMPL
 #include "mutex_model.h"
@@ -27,6 +40,7 @@ enum { A_LABEL = CKA_LABEL /*3*/, A_TOKEN = CKA_TOKEN /*1*/, A_MECH = CKA_ALLOWE
 enum { OFF_TOKEN = 8, OFF_LABEL = 8 + 17, OFF_MECH = 8 + 17 + 26, FULL = 8 + 17 + 26 + 32 };
 extern "C" void harness(void)
 {
+	vio_bind();
 	vio.f[0].exists = false; vio.f[1].exists = false; vio.f[0].size = 0; vio.f[1].size = 0; vio_reset();
 	unsigned char l0 = nondet_uchar(), l1 = nondet_uchar(), n0 = nondet_uchar(), n1 = nondet_uchar(); bool tok = nondet_bool(); unsigned long mech = nondet_ulong();
 	std::set<CK_MECHANISM_TYPE> ms; ms.insert(mech);
@@ -45,7 +59,7 @@ extern "C" void harness(void)
 		be64(d + OFF_MECH, A_MECH); be64(d + OFF_MECH + 8, 5); be64(d + OFF_MECH + 16, 1); be64(d + OFF_MECH + 24, mech);
 		vio.f[0].exists = true; vio.f[0].size = FULL; vio.f[0].flushed = FULL; vio.f[1].exists = true;
 	}
-#if OP == 1 || OP == 2
+#if OP == 1 || OP == 2 || OP == 5
 	static ObjectFile w(NULL, "A", 0077, "B", false);      // the process that is going to rewrite the object has it loaded
 	vassert(w.valid && w.attributeExists(A_LABEL) && w.attributeExists(A_TOKEN) && w.attributeExists(A_MECH));
 #endif
@@ -72,49 +86,75 @@ extern "C" void harness(void)
 	vassert(w.isValid());
 	{ ByteString v = w.getByteStringValue(A_LABEL); vassert(v.size() == 2 && v[0] == n0 && v[1] == n1); vassert(w.getBooleanValue(A_TOKEN, tok) == !tok); }
 	vreach();
-#elif OP == 1 || OP == 2
-	unsigned at = nondet_uchar(); unsigned base = vio.ops;
-#if OP == 1
-	vio.crashAt = base + at;
-#else
-	vio.failAt = base + at;
-#endif
-	bool ok = w.setAttribute(A_LABEL, OSAttribute(bs2(n0, n1)));
+#elif OP == 1
+	// ---- crash at the VIO_AT-th file operation of the rewrite (VIO_AT concrete per obligation: "shapes concrete"), with an arbitrary prefix of the
+	// data in flight when the crash hits a flush.  What is on the (model) disk afterwards is characterised exactly; what the loader makes
+	// of every such file is decided by the loader_cut obligations (same file layout, all values symbolic).
+	unsigned base = vio.ops;
+	vio.crashAt = base + VIO_AT; vio_arm_crash = true;
+	(void)w.setAttribute(A_LABEL, OSAttribute(bs2(n0, n1)));
 	unsigned used = vio.ops - base;
-	vassume(at < used);                                   // the crash / fault point lies inside this call
-#if OP == 1
-	vassert(vio.crashed);
-	// recovery in a fresh process: load what is durable
-	for (size_t k = 0; k < FCAP; k++) vio.f[0].data[k] = vio.f[0].durable[k];
-	vio.f[0].size = vio.f[0].durableSize; vio.f[0].exists = vio.f[0].durableExists; vio.crashAt = VIO_NOFAIL; vio.failAt = VIO_NOFAIL;
-	size_t dsz = vio.f[0].size;
-	static ObjectFile rec(NULL, "A", 0077, "B", false);
-	if (rec.valid)
-	{
-		bool hasAll = rec.attributeExists(A_TOKEN) && rec.attributeExists(A_LABEL) && rec.attributeExists(A_MECH);
-		ByteString v = rec.getByteStringValue(A_LABEL);
-		bool isOld = hasAll && v.size() == 2 && v[0] == l0 && v[1] == l1 && rec.getBooleanValue(A_TOKEN, !tok) == tok;
-		bool isNew = hasAll && v.size() == 2 && v[0] == n0 && v[1] == n1 && rec.getBooleanValue(A_TOKEN, !tok) == tok;
-		// the interrupted object is in its old or its new state - never a valid object with missing or wrong attributes
-		if (dsz == 0) { vassert(isOld || isNew); vreach(); }                                          // (A) file left empty by the truncate
-		else if (dsz == 8 || dsz == OFF_LABEL || dsz == OFF_MECH) { vassert(isOld || isNew); vreach(); }   // (B) cut exactly at a record boundary
-		else if (dsz < FULL) { vassert(isOld || isNew); }                                             // (C) cut anywhere else
-		else { vassert(isNew || isOld); vreach(); }
-	}
-	else { vassert(dsz != FULL); vreach(); }                  // a completely written file is never rejected
-#else
+	vassert(used == NOPS);                                 // the instantiated crash points 0 .. NOPS-1 are all of them
+	vassert(vio.crashed && vio.f[0].durableExists);
+	size_t dsz = vio.f[0].durableSize; const unsigned char* D = vio.f[0].durable;
+	unsigned char oldref[FULL], newref[FULL];
+	be64(oldref, 4); be64(oldref + OFF_TOKEN, 1); be64(oldref + OFF_TOKEN + 8, 1); oldref[OFF_TOKEN + 16] = tok ? 0xFF : 0x00;
+	be64(oldref + OFF_LABEL, 3); be64(oldref + OFF_LABEL + 8, 3); be64(oldref + OFF_LABEL + 16, 2); oldref[OFF_LABEL + 24] = l0; oldref[OFF_LABEL + 25] = l1;
+	be64(oldref + OFF_MECH, A_MECH); be64(oldref + OFF_MECH + 8, 5); be64(oldref + OFF_MECH + 16, 1); be64(oldref + OFF_MECH + 24, mech);
+	for (int i = 0; i < FULL; i++) newref[i] = oldref[i];
+	be64(newref, 5); newref[OFF_LABEL + 24] = n0; newref[OFF_LABEL + 25] = n1;
+	bool isOld = dsz == FULL, isNewPrefix = dsz <= FULL;
+	for (int i = 0; i < FULL; i++) { if (D[i] != oldref[i]) isOld = false; if ((size_t)i < dsz && D[i] != newref[i]) isNewPrefix = false; }
+	// (1) nothing but the old file or a prefix of the new file is ever on the disk (sequential rewrite, no garbage, no other file touched)
+	vassert(isOld || isNewPrefix);
+	vassert(vio.f[1].durableExists && vio.f[1].durableSize == 0);
+	// (2) C16: the object being rewritten is in its old or in its (complete) new state
+	vassert(isOld || (isNewPrefix && dsz == FULL));
+	vreach();
+#elif OP == 2
+	// ---- one failing file operation at the VIO_AT-th file operation of the rewrite
+	unsigned base = vio.ops;
+	vio.failAt = base + VIO_AT; vio_arm_fail = true;
+	bool ok = w.setAttribute(A_LABEL, OSAttribute(bs2(n0, n1)));
+	vassert(vio.failures == 1);
 	if (ok)
 	{	// C05: a call that could not persist its effect must not report success
+		vio_arm_fail = false;
 		static ObjectFile rd(NULL, "A", 0077, "B", false);
 		vassert(rd.valid);
 		ByteString v = rd.getByteStringValue(A_LABEL);
 		vassert(v.size() == 2 && v[0] == n0 && v[1] == n1 && rd.attributeExists(A_TOKEN) && rd.attributeExists(A_MECH));
-		vreach();
+		vassert(vio.f[0].flushed == vio.f[0].size);         // ... and nothing is left unflushed
 	}
-	else vreach();
-#endif
+	vreach();
+#elif OP == 5
+	// ---- C15: two processes (two ObjectFile instances on the same file), every interleaving at call granularity of SCHED_LEN attribute
+	// writes: step i is performed by instance (op & 1) on attribute (op >> 1), op = digit i of SCHED in base 4.  After every step BOTH
+	// instances must show exactly the committed state (last committed write per attribute wins; nothing lost, nothing resurrected).
+	static ObjectFile r(NULL, "A", 0077, "B", false);
+	vassert(r.valid);
+	unsigned char rl0 = l0, rl1 = l1; bool rtok = tok;        // reference: the committed state
+	unsigned sched = SCHED;
+	for (int step = 0; step < SCHED_LEN; step++, sched /= 4)
+	{
+		ObjectFile& who = (sched & 1) ? r : w;
+		if (sched & 2) { bool b = nondet_bool(); vassert(who.setAttribute(A_TOKEN, OSAttribute(b))); rtok = b; }
+		else { unsigned char a = nondet_uchar(), b = nondet_uchar(); vassert(who.setAttribute(A_LABEL, OSAttribute(bs2(a, b)))); rl0 = a; rl1 = b; }
+		vassert(vio.f[0].size == FULL && vio.f[0].flushed == FULL);
+		for (int k = 0; k < 2; k++)
+		{
+			ObjectFile& o = k ? r : w;
+			vassert(o.isValid());
+			ByteString v = o.getByteStringValue(A_LABEL);
+			vassert(v.size() == 2 && v[0] == rl0 && v[1] == rl1);
+			vassert(o.getBooleanValue(A_TOKEN, !rtok) == rtok);
+			OSAttribute a = o.getAttribute(A_MECH);
+			vassert(a.isMechanismTypeSetAttribute() && a.getMechanismTypeSetValue().size() == 1 && a.getMechanismTypeSetValue().count(mech) == 1);
+		}
+	}
+	vreach();
 #elif OP == 3
-	size_t cut = nondet_uchar(); vassume(cut <= FULL);
+	const size_t cut = CUT;          // the truncation length is concrete per obligation (EOF position concrete), all values symbolic; the runner instantiates the cuts
 	vio.f[0].size = cut; vio.f[0].flushed = cut;
 	static ObjectFile rec(NULL, "A", 0077, "B", false);
 	bool complete = rec.valid && rec.attributeExists(A_TOKEN) && rec.attributeExists(A_LABEL) && rec.attributeExists(A_MECH);
